@@ -5,6 +5,7 @@ import (
 	"flag"
 	"fmt"
 	"os"
+	"os/exec"
 	"path/filepath"
 	"runtime/pprof"
 	"sort"
@@ -105,6 +106,7 @@ type RunReport struct {
 	Vacuous     []string
 	Bounds      string
 	Skipped     bool
+	Cross       []map[string]interface{}
 }
 
 func cmdCheck(args []string) int {
@@ -358,6 +360,28 @@ func cmdCheck(args []string) int {
 			fmt.Printf("run %-28s paths=%d decisions=%d asserts=%d/%d queries=%d solver=%s wall=%s status=%v%s\n",
 				r.Name, rep.Agg.Paths, rep.Agg.Decisions, rep.Agg.Discharged, rep.Agg.Asserts, rep.Agg.Queries,
 				fmtDur(rep.Agg.SolverTime), fmtDur(rep.Wall), rep.Agg.ByStatus, truncNote(rep.Agg.Truncated))
+			// the same exploration decided by other solvers: every verdict that shaped the path tree must agree
+			for _, other := range cfg.CrossSolvers {
+				if other == cfg.Solver {
+					continue
+				}
+				cfg2 := cfg
+				cfg2.Solver = other
+				rep2 := runOne(prog, &cfg2, r, *workers, false, seed)
+				same := exploreSummary(rep.Agg) == exploreSummary(rep2.Agg)
+				rep.Cross = append(rep.Cross, map[string]interface{}{
+					"solver": solverDescription(other), "agrees": same, "summary": exploreSummary(rep2.Agg),
+					"solver_queries": rep2.Agg.Queries, "solver_time_s": rep2.Agg.SolverTime.Seconds(), "wall_s": rep2.Wall.Seconds(),
+				})
+				if same && rep2.Agg.SolverErrors == 0 && len(rep2.Agg.Problems) == 0 {
+					fmt.Printf("cross-solver run=%s %s agrees with %s (%s)\n", r.Name, other, cfg.Solver, exploreSummary(rep2.Agg))
+				} else {
+					fmt.Printf("INCONCLUSIVE run=%s solvers disagree: %s: %s | %s: %s problems=%v\n", r.Name, cfg.Solver, exploreSummary(rep.Agg), other, exploreSummary(rep2.Agg), rep2.Agg.Problems)
+					if exit == 0 {
+						exit = 2
+					}
+				}
+			}
 		}
 	}
 	writeEvidence(*outPath, &cf, *tier, seed, reports, time.Since(start), exit)
@@ -418,6 +442,7 @@ func writeEvidence(path string, cf *CheckFile, tier string, seed int64, reports 
 	funcs := map[string]int{}
 	violations := 0
 	knownTotal := 0
+	solversUsed := map[string]bool{}
 	for _, r := range reports {
 		if r.Skipped {
 			runs = append(runs, map[string]interface{}{"name": r.Name, "skipped": r.Bounds})
@@ -425,6 +450,7 @@ func writeEvidence(path string, cf *CheckFile, tier string, seed int64, reports 
 			continue
 		}
 		a := r.Agg
+		solversUsed[solverDescription(r.Cfg.Solver)] = true
 		states += a.Paths
 		transitions += a.Decisions
 		validated += r.Validated + r.ReplayOK
@@ -453,7 +479,7 @@ func writeEvidence(path string, cf *CheckFile, tier string, seed int64, reports 
 		}
 		runs = append(runs, map[string]interface{}{
 			"name": r.Name, "harness": r.Cfg.Harness, "pkg": r.Cfg.Pkg, "bounds": r.Bounds, "params": r.Cfg.Params,
-			"hash_mode": r.Cfg.HashMode, "preemption_bound": r.Cfg.Preemptions,
+			"hash_mode": r.Cfg.HashMode, "preemption_bound": r.Cfg.Preemptions, "solver": solverDescription(r.Cfg.Solver),
 			"paths": a.Paths, "paths_by_status": a.ByStatus, "symbolic_decisions": a.Decisions,
 			"assertions_checked": a.Asserts, "assertions_discharged_unsat": a.Discharged,
 			"solver_queries": a.Queries, "solver_time_s": a.SolverTime.Seconds(), "solver_unknown": a.Unknowns,
@@ -463,6 +489,7 @@ func writeEvidence(path string, cf *CheckFile, tier string, seed int64, reports 
 			"candidate_paths_by_key": cands, "known_finding_paths": r.Known,
 			"candidates_replayed_natively": r.Replayed, "candidates_reproduced": r.ReplayOK,
 			"passing_paths_validated_natively": r.Validated, "native_mismatches": r.ValidMism,
+			"cross_solver_runs": r.Cross,
 		})
 	}
 	var interp, intr, stub []string
@@ -500,7 +527,7 @@ func writeEvidence(path string, cf *CheckFile, tier string, seed int64, reports 
 			"discharged":                     discharged,
 			"exhaustive":                     exhaustive && exit == 0,
 			"explanation":                    "states = terminated paths of the bounded symbolic execution; transitions = symbolic decisions (branches, concretisations, scheduler choices) decided by the SMT solver; obligations = harness assertions turned into queries pc∧¬assert, discharged = answered unsat",
-			"solver":                         "z3 4.8.12 via one z3 -in process per worker",
+			"solver":                         solverList(solversUsed) + "; one long-lived solver process per worker (push/pop)",
 			"solver_queries":                 queries,
 			"solver_time_s":                  solverTime.Seconds(),
 			"runs":                           runs,
@@ -516,4 +543,50 @@ func writeEvidence(path string, cf *CheckFile, tier string, seed int64, reports 
 	}
 	b, _ := json.MarshalIndent(ev, "", " ")
 	os.WriteFile(path, b, 0o644)
+}
+
+var solverDescCache = map[string]string{}
+
+// solverDescription names the solver binary of a run with the version it reports.
+func solverDescription(kind string) string {
+	if kind == "" {
+		kind = "z3-new"
+	}
+	if d, ok := solverDescCache[kind]; ok {
+		return d
+	}
+	argv := solverArgv(kind)
+	out, _ := exec.Command(argv[0], "--version").Output()
+	line := strings.TrimSpace(strings.SplitN(string(out), "\n", 2)[0])
+	d := argv[0]
+	if line != "" {
+		d += " (" + line + ")"
+	}
+	solverDescCache[kind] = d
+	return d
+}
+
+func solverList(m map[string]bool) string {
+	var l []string
+	for k := range m {
+		l = append(l, k)
+	}
+	sort.Strings(l)
+	return strings.Join(l, ", ")
+}
+
+// exploreSummary is what two solvers must agree on: the shape of the explored path tree and the
+// outcome of every assertion query.
+func exploreSummary(a *Aggregate) string {
+	keys := make([]string, 0, len(a.CandCount))
+	for k := range a.CandCount {
+		keys = append(keys, fmt.Sprintf("%s=%d", k, a.CandCount[k]))
+	}
+	sort.Strings(keys)
+	st := make([]string, 0, len(a.ByStatus))
+	for k, v := range a.ByStatus {
+		st = append(st, fmt.Sprintf("%s:%d", k, v))
+	}
+	sort.Strings(st)
+	return fmt.Sprintf("paths=%d decisions=%d asserts=%d/%d status=%v candidates=%v", a.Paths, a.Decisions, a.Discharged, a.Asserts, st, keys)
 }
